@@ -1,5 +1,6 @@
 """C06 - one pickle per scenario / example row, in document order."""
 from . import compiler_rules as cr
+from . import shape_rules as sh
 
 META = {
     "level": "other",
@@ -13,6 +14,7 @@ META = {
 
 
 def run(rep):
+    sh.rule_key_reads(rep, "C06.reads")
     cr.rule_skel(rep)
     cr.rule_fields(rep)
     cr.rule_input(rep, "C06.isolation")
